@@ -3,6 +3,7 @@
 From Coq Require Import List NArith ZArith Bool.
 Import ListNotations.
 From Verif Require Import Base.Val C18.Fs C29.Model_C29 C29.Spec_C29 C29.Proofs_C29.
+From Verif Require Import C29.Complete_C29 C29.ViewExec_C29 C29.Aside_C29.
 
 (* the generic theorem: an update whose ops before and after a middle section name invisible
    paths only is old-or-new at every crash point outside that section *)
@@ -69,3 +70,118 @@ Theorem vdb_uninstall_partial :
                            (vdb_uninstall_ops s loc cat old tree) s.
 Proof. exact vdb_uninstall_partial_proof. Qed.
 Print Assumptions vdb_uninstall_partial.
+
+(* ------------------------------------------------------------------ the new state is complete *)
+(* after the whole vdb install op list has run without a failing call (package absent before,
+   a stale staging entry, if any, is a directory, item names distinct), the package is listed and
+   every staged file reads back in full *)
+Theorem vdb_install_complete :
+  forall loc s cat pf items s',
+    nolinks s ->
+    vdb_cat_ok cat = true -> vdb_skip pf = false ->
+    NoDup (map item_name items) -> ~ In UPD (map item_name items) ->
+    (forall r, lookup s (pkgdir loc cat pf ++ r) = None) ->
+    match lookup s (tmpdir loc cat pf) with Some n => is_dir_node n = true | None => True end ->
+    run_opt (vdb_install_ops s loc cat pf items) s = Some s' ->
+    vdb_complete s' loc cat pf items.
+Proof. exact vdb_install_complete_proof. Qed.
+Print Assumptions vdb_install_complete.
+
+(* ... so each of the 13 keys the check reads is present with the staged data *)
+Theorem vdb_install_keys :
+  forall loc s cat pf items s',
+    nolinks s ->
+    vdb_cat_ok cat = true -> vdb_skip pf = false ->
+    NoDup (map item_name items) -> ~ In UPD (map item_name items) ->
+    (forall r, lookup s (pkgdir loc cat pf ++ r) = None) ->
+    match lookup s (tmpdir loc cat pf) with Some n => is_dir_node n = true | None => True end ->
+    (forall k, In k (vdb_keys pf) -> exists it, In it items /\ item_name it = fst k) ->
+    run_opt (vdb_install_ops s loc cat pf items) s = Some s' ->
+    length (vdb_keys pf) = 13
+    /\ forall k, In k (vdb_keys pf) ->
+         exists it, In it items /\ item_name it = fst k
+                    /\ read_key s' (pkgdir loc cat pf) k
+                       = VS (if snd k then rstrip_nl (item_data it) else item_data it).
+Proof. exact vdb_install_keys_proof. Qed.
+Print Assumptions vdb_install_keys.
+
+(* the same for a harness scenario whose hypotheses the check evaluated (Spec_C29.install_hyps_ok) *)
+Theorem vdb_install_complete_checked :
+  forall c s',
+    sc_kind c = KVInstall -> install_hyps_ok c = true -> nolinks (sc_fs c) ->
+    run_opt (sc_ops c) (sc_fs c) = Some s' ->
+    vdb_complete s' (sc_loc c) (sc_cat c) (sc_pf c) (sc_items c)
+    /\ forall k, In k (vdb_keys (sc_pf c)) -> read_key s' (pkgdir (sc_loc c) (sc_cat c) (sc_pf c)) k <> VNone.
+Proof. exact vdb_install_complete_checked_proof. Qed.
+Print Assumptions vdb_install_complete_checked.
+
+(* binpkg install / same-version replace: the tarball is listed and holds every written byte *)
+Theorem bin_install_complete :
+  forall base s cat pid pf chunks cache s',
+    nolinks s -> bin_cat_ok cat = true -> bin_skip (pf ++ TBZ2) = false ->
+    run_opt (bin_install_ops s base cat pid pf chunks cache) s = Some s' ->
+    listed bin_cat_ok bin_skip false base s' cat (pf ++ TBZ2) = true
+    /\ content base s' cat (pf ++ TBZ2) [] = Some (concat chunks).
+Proof. exact bin_install_complete_proof. Qed.
+Print Assumptions bin_install_complete.
+
+(* ------------------------------------------------------------------ executable view = declarative view *)
+Theorem view_exec_is_view_vdb :
+  forall s loc, vdb_shaped loc s ->
+    exec_is_view vdb_cat_ok vdb_skip true loc simple_pf (vdb_entry loc) s (vdb_view s loc).
+Proof. exact vdb_view_exec_is_view_proof. Qed.
+Print Assumptions view_exec_is_view_vdb.
+
+Theorem view_exec_is_view_bin :
+  forall s base, bin_shaped base s ->
+    exec_is_view bin_cat_ok bin_skip false base bin_okname (bin_entry base) s (bin_view s base).
+Proof. exact bin_view_exec_is_view_proof. Qed.
+Print Assumptions view_exec_is_view_bin.
+
+(* equal declarative views give equal executable views (same error status, same entries) *)
+Theorem view_exec_respects_vdb :
+  forall a b loc, vdb_shaped loc a -> vdb_shaped loc b -> vdb_view_eq loc a b ->
+    (vdb_view a loc = VErr INVALIDCPV /\ vdb_view b loc = VErr INVALIDCPV)
+    \/ exists la lb, vdb_view a loc = VL la /\ vdb_view b loc = VL lb /\ forall e, In e la <-> In e lb.
+Proof. exact vdb_view_respects_proof. Qed.
+Print Assumptions view_exec_respects_vdb.
+
+Theorem view_exec_respects_bin :
+  forall a b base, bin_shaped base a -> bin_shaped base b -> bin_view_eq base a b ->
+    (bin_view a base = VErr INVALIDCPV /\ bin_view b base = VErr INVALIDCPV)
+    \/ exists la lb, bin_view a base = VL la /\ bin_view b base = VL lb /\ forall e, In e la <-> In e lb.
+Proof. exact bin_view_respects_proof. Qed.
+Print Assumptions view_exec_respects_bin.
+
+(* ------------------------------------------------------------------ ANALYSIS of the rename-aside repair
+   (a model of code that does not exist: rename old -> .tmp.remove-PF; rename new -> PF; rmtree) *)
+Theorem aside_uninstall_consistent :
+  forall loc s cat old tree,
+    nolinks s -> vdb_consistent loc (aside_uninstall_ops s loc cat old tree) s.
+Proof. exact aside_uninstall_consistent_proof. Qed.
+Print Assumptions aside_uninstall_consistent.
+
+Theorem aside_replace_partial :
+  forall loc s cat old pf tree items,
+    nolinks s ->
+    forall k, k <> aside_replace_point s loc cat pf items ->
+      vdb_view_eq loc (run (firstn k (aside_replace_ops s loc cat old pf tree items)) s) s
+      \/ vdb_view_eq loc (run (firstn k (aside_replace_ops s loc cat old pf tree items)) s)
+                         (run (aside_replace_ops s loc cat old pf tree items) s).
+Proof. exact aside_replace_partial_proof. Qed.
+Print Assumptions aside_replace_partial.
+
+Theorem aside_replace_refuted : ~ aside_replace_full.
+Proof. exact aside_replace_refuted_proof. Qed.
+Print Assumptions aside_replace_refuted.
+
+Theorem aside_replace_same_version_absent :
+  listed vdb_cat_ok vdb_skip true [Ex.v] Ex.s0 Ex.c Ex.p1 = true
+  /\ listed vdb_cat_ok vdb_skip true [Ex.v] (run AEx.ops_same Ex.s0) Ex.c Ex.p1 = true
+  /\ listed vdb_cat_ok vdb_skip true [Ex.v] (run (firstn 11 AEx.ops_same) Ex.s0) Ex.c Ex.p1 = false.
+Proof. exact aside_replace_same_version_absent_proof. Qed.
+Print Assumptions aside_replace_same_version_absent.
+
+Theorem aside_replace_newfirst_refuted : ~ aside_replace_newfirst_full.
+Proof. exact aside_replace_newfirst_refuted_proof. Qed.
+Print Assumptions aside_replace_newfirst_refuted.
